@@ -5,7 +5,6 @@ CONSTANTS
   MaxRuns = 3
   Variant = "fixed"
   Kinds <- AllKinds
-  SubRuns <- Yes
   Forms <- SysForms
   Publish = "tmp"
   NCk = 3
